@@ -18,7 +18,7 @@ def run_focus(chk: Check, module: str, focus: str, *, max_top: int, invariants=(
               timeout: int = 3000, export: str = "Export"):
     """Model-check one focus; returns the TlcRun (caller must cleanup()) or None."""
     consts = {"PoolAt": "<- MCPoolAt", "DataSets": "<- MCData", "Cfgs": "<- MCCfgs",
-              "MaxTop": str(max_top), "Focus": f'"{focus}"'}
+              "MaxTop": str(max_top), "Focus": f'"{focus}"', "Partials": "<- MCPartials"}
     consts.update(extra_constants or {})
     cfg = tlc.cfg_text(constants=consts, invariants=[export, *invariants])
     r = tlc.run(module, cfg, tag=f"{module}-{focus}", simulate=simulate, depth=depth,
